@@ -78,7 +78,7 @@ func (ups *Packet) ConnectPacket(manager cert.TlsConfig, mustSecure bool, connec
 	if secure {
 		log.Debugf("Starting AES-encrypted packet client to %s", ups.String())
 
-		key := pbkdf2.Key(pass, salt, 1024, 64, sha256.New)
+		key := pbkdf2.Key(pass, salt, 1024, 32, sha256.New) // AES-256: the cipher takes 16, 24 or 32 octets
 		if b, err := kcp.NewAESBlockCrypt(key); err != nil {
 			return errors.WithStack(err)
 		} else {
